@@ -1,6 +1,7 @@
 BASELINE_OFF = "cd /repo && go test -mod=mod -json -vet=off -count=1 -timeout 25m ./..."
 HOOK_COMMITS = []
-NOTES = ("Every check: regenerate facts from /repo, lake build theorems+ties, audit axioms, run real code vs Lean model "
+NOTES = ("The checks of C06, C10-C17 and C19 also hold the lock-discipline obligation: every function under bus/ that touches a mutex is translated (harness/cmd/extract/locks.go) into a control skeleton, and Tie/Locks.lean shows by evaluation of a checker proved sound (Props/Locks.lean safe_sound, acts_sound) that none returns with a mutex held, locks one it holds, or — endPoint.dispatch apart — sends or waits under one. "
+         "Every check: regenerate facts from /repo, lake build theorems+ties, audit axioms, run real code vs Lean model "
          "driver on generated ops, compare. See DESIGN.md.")
 NOT_APPLICABLE = {}
 
@@ -48,7 +49,7 @@ CHECKS = {
                 "Props/C16Add.lean): the invariant holds whatever runs in between, the pending identifier is refused, the second half "
                 "touches no other object, and the two halves with nothing in between are the one-step Add; "
                 "tied to service.go by regenerated lock/map operation sequences and exact differential runs against a "
-                "real server, with objects whose activation waits for the harness; the objects that live on the client's side of a service (bus/service_reference.go) are driven by the same operations (identifiers, a second removal, removals at the same moment: the defect c6afcd6 was found and repaired there); Receive against Remove with the grain of the code (senders run the program compiled from the regenerated tokens of Receive, bounded mailbox, Go RWMutex with its waiting writer): no deadlock on any schedule, a message after the removal is refused; the order RUnlock-after-send is refuted",
+                "real server, with objects whose activation waits for the harness; the objects that live on the client's side of a service (bus/service_reference.go) have a model of their own (Model/ClientObjects.lean, Props/C16Client.lean: identifiers unique and never reused on every interleaving of two-part additions, removals and terminations, the hook at most once, the second removal refused; tied token by token, Tie/ClientService.lean) and are driven by the same operations (identifiers, a second removal, removals at the same moment: the defect c6afcd6 was found and repaired there); Receive against Remove with the grain of the code (senders run the program compiled from the regenerated tokens of Receive, bounded mailbox, Go RWMutex with its waiting writer): no deadlock on any schedule, a message after the removal is refused; the order RUnlock-after-send is refuted",
         "note": "trusts the Lean kernel, the flow extractor, the harness' instrumented PingPong objects; sequential histories, "
                 "concurrent removals and removals of busy objects in the correspondence run",
         "technique": "Lean 4 proof (invariant by induction over operation histories) + regenerated tie lemmas + differential correspondence",
